@@ -37,6 +37,9 @@ def programs(tier, rng):
         for variant in (0, 1):
             c = scopegen.Conc(p, variant=variant)
             out.append(('%s-v%d' % (pid, variant), c.src, 'scope'))
+        # adversarial spelling: the program's own names are the first names the generator hands out
+        c = scopegen.Conc(p, variant=0, names={'x': 'A', 'y': 'B'})
+        out.append(('%s-vAB' % pid, c.src, 'scope'))
     # suite cases (the block in its context), under whatever safe options are drawn
     c1, _ = tlc.cached_export('Suite', 'Export_Suite1.cfg')
     c2, _ = tlc.cached_export('Suite', 'Export_Suite2.cfg', timeout=3600)
